@@ -278,3 +278,53 @@ func VerifC07XOrderIsolation() {
 	vAssert(before != "" && before == after, "preparing a second spec changed the working copy of the first one")
 	vAssert(read(outB) != before, "the second run works on the first run's document")
 }
+
+func init() { vRegister("VerifC07Serializers", VerifC07Serializers) }
+
+// C07: the consumers/producers planned for an application do not depend on the order in which
+// the analysed spec lists its media types (go-openapi/analysis dumps the keys of a map), nor on
+// the iteration order of makeSerializers' own maps: same groups, same media types, same spelling.
+func VerifC07Serializers() {
+	vocab := []string{"application/json", "application/JSON", "text/plain", "Text/Plain; charset=utf-8", "application/vnd.acme+json", "application/xml"}
+	var fwd []string
+	for _, m := range vocab {
+		if vBool2("has." + m) {
+			fwd = append(fwd, m)
+		}
+	}
+	rev := make([]string, 0, len(fwd))
+	for i := len(fwd) - 1; i >= 0; i-- {
+		rev = append(rev, fwd[i])
+	}
+	a := &appGenerator{Name: "app", Receiver: "o"}
+	known := func(media string) (string, bool) {
+		c, ok := knownConsumers[media]
+		return c, ok
+	}
+	print := func(gs GenSerGroups, json bool) string {
+		out := ""
+		if json {
+			out = "json;"
+		}
+		for _, g := range gs {
+			out += g.Name + "=" + g.Implementation + "["
+			for _, s := range g.AllSerializers {
+				out += s.MediaType + "(" + s.Name + ")"
+			}
+			out += "]"
+		}
+		return out
+	}
+	g1, j1 := a.makeSerializers(fwd, known)
+	r1 := print(g1, j1)
+	g2, j2 := a.makeSerializers(rev, known)
+	r2 := print(g2, j2)
+	k := vChoice("site", 3)
+	vMapOrderSite(k)
+	g3, j3 := a.makeSerializers(fwd, known)
+	vMapOrderSite(-1)
+	r3 := print(g3, j3)
+	vCover("planned")
+	vAssert(r1 == r2, "the planned serializers depend on the order in which the media types are listed")
+	vAssert(r1 == r3, "the planned serializers depend on map iteration order")
+}
